@@ -293,7 +293,7 @@ ALLOWED_THREAD_EXC = {'KeyError'}      # an interface thread dies on an unknown 
 
 DEV_NAMES = ['Dev_ModulesLeftRunning', 'Dev_ServesAfterStop', 'Dev_StaleAnnounce', 'Dev_ShutdownLost', 'Dev_RestartLost',
              'Dev_RequestRaises_AttributeError', 'Dev_RequestRaises_RuntimeError', 'Dev_Revived', 'Dev_ResponderLeak',
-             'Dev_NoHook', 'Dev_InterruptedStartup', 'Dev_RequestRaises_other']       # = DevNames of Trace_ServerRun.tla
+             'Dev_NoHook', 'Dev_InterruptedStartup', 'Dev_SignalHandlerBlocks', 'Dev_RequestRaises_other']       # = DevNames of Trace_ServerRun.tla
 
 
 def _devs(extra):
